@@ -64,6 +64,16 @@ class _Expr(ast.NodeTransformer):
         # len("const") -> int
         if isinstance(node.func, ast.Name) and node.func.id == "len" and len(node.args) == 1 and isinstance(node.args[0], ast.Constant) and isinstance(node.args[0].value, str):
             return ast.copy_location(ast.Constant(value=len(node.args[0].value)), node)
+        # sum(1 for T in IT if C)  ->  len([T for T in IT if C])
+        if isinstance(node.func, ast.Name) and node.func.id == "sum" and len(node.args) == 1 and not node.keywords and isinstance(node.args[0], (ast.GeneratorExp, ast.ListComp)) \
+                and isinstance(node.args[0].elt, ast.Constant) and node.args[0].elt.value == 1 and len(node.args[0].generators) == 1:
+            g = node.args[0].generators[0]
+            elt = copy.deepcopy(g.target)
+            for x in ast.walk(elt):
+                if hasattr(x, "ctx"):
+                    x.ctx = ast.Load()
+            comp = ast.ListComp(elt=elt, generators=node.args[0].generators)
+            return ast.copy_location(ast.Call(func=ast.Name(id="len", ctx=ast.Load()), args=[ast.copy_location(comp, node)], keywords=[]), node)
         # x.startswith((a, b)) -> x.startswith(a) or x.startswith(b)   (same for endswith)
         if isinstance(node.func, ast.Attribute) and node.func.attr in ("startswith", "endswith") and len(node.args) == 1 and isinstance(node.args[0], ast.Tuple) \
                 and node.args[0].elts and not node.keywords:
